@@ -17,7 +17,10 @@ The matcher below is specialised by hand to exactly these two patterns.  The tex
 of runes the regexp package decodes (an invalid UTF-8 byte is one U+FFFD of width one; the
 harness ships the text in that form), so a character of the model is one matching step of Go.
 
-Why no backtracking is left for the repetitions (each argument is about the priority order):
+Why no backtracking is left for the repetitions (each argument is about the priority order;
+`Lemmas/SanitizeRe.lean` proves them: `setRe_eq`, `createRe_eq` state that these matchers equal
+a generic backtracking matcher run on the patterns given as atom sequences, whose printed form
+is compared with the regenerated sources):
 * `\s+` before `for` / `password` / the group: the next pattern element cannot match a white-space
   character, so only the maximal run can be followed by a match;
 * `[^=]*` before `=`: every character of the run is not `=`, so `=` can only match at the end of
